@@ -53,6 +53,179 @@ def non_increasing(xs):
     return all(a >= b for a, b in zip(xs, xs[1:]))
 
 
+class Labeller:
+    """
+    Decides whether a failure is explained by one of the named mechanisms (class strings).  It never decides whether
+    something IS a failure - that is the oracle's business - only whether a failure may carry a class.
+    """
+
+    def __init__(self, case, out, idx, in_toks, prefix):
+        self.case, self.out, self.idx, self.in_toks, self.prefix = case, out, idx, in_toks, prefix
+        self.mp = case["map"]
+        # input contigs of every input scaffold in scaffold coordinates: (start, end, name, cstart, cend)
+        self.rows_at = {}
+        for s in case["input"]:
+            pos = 0
+            lst = []
+            for r in s["rows"]:
+                ln = pg.row_len(r)
+                if r[0] == "F":
+                    lst.append((pos + 1, pos + ln, r[1], r[2], r[3]))
+                pos += ln
+            self.rows_at[s["name"]] = lst
+        # (assembly key, chromosome name) -> numbers of the painted Pretext scaffolds whose pieces ended up there
+        self.k_of = {}
+        for k, psc in enumerate(self.mp["scaffolds"], 1):
+            if not any("Painted" in p[4] for p in psc):
+                continue
+            bases = set()
+            for p in psc:
+                if pg.piece_special(p):
+                    continue
+                t = anchor(in_toks[p[0]], p)
+                for si, _ in idx.where.get((t[0], t[1]), []) if t else []:
+                    key, sc, _ = idx.scaffolds[si]
+                    if ("_unloc_" in sc["name"]) == ("Unloc" in p[4]):
+                        bases.add((key, sc["name"].rsplit("_unloc_", 1)[0]))
+            for b in bases:
+                self.k_of.setdefault(b, set()).add(k)
+
+    def scaffold_k(self, key, base):
+        ks = self.k_of.get((key, base), set())
+        if len(ks) != 1:
+            return None
+        (k,) = ks
+        # the Pretext scaffold must not be claimed by another chromosome either
+        if sum(1 for b, v in self.k_of.items() if k in v) != 1:
+            return None
+        return k
+
+    def unloc_pieces(self, k):
+        """Unloc-tagged pieces of Pretext scaffold k that overlap at least one contig (a gap-only piece finds nothing and gets no number)"""
+        return [p for p in self.mp["scaffolds"][k - 1] if "Unloc" in p[4] and not pg.piece_special(p) and self.touched(p)]
+
+    def unloc_only(self, key, base):
+        k = self.scaffold_k(key, base)
+        if k is None:
+            return False
+        # pieces that overlap no contig at all (gap-only) find nothing and are ignored
+        plain = [p for p in self.mp["scaffolds"][k - 1] if not pg.piece_special(p) and self.touched(p)]
+        return bool(plain) and all("Unloc" in p[4] for p in plain)
+
+    def touched(self, piece):
+        """input contigs overlapped by the piece: [(name, cstart, cend, lo, hi)] with lo..hi the contig bases inside the piece"""
+        res = []
+        toks = self.in_toks[piece[0]]
+        for a, b, name, cs, ce in self.rows_at[piece[0]]:
+            lo, hi = max(a, piece[1]), min(b, piece[2])
+            if lo > hi:
+                continue
+            cov = sorted(toks[q - 1][1] for q in range(lo, hi + 1))
+            res.append((name, cs, ce, cov[0], cov[-1]))
+        return res
+
+    def matchings(self, pieces, scaffolds, limit=2000):
+        """every way to give each output scaffold a different piece whose range holds some of its bases: [{scaffold index: piece index}]"""
+        holds = []
+        for sc in scaffolds:
+            seq = {(r[1], q) for r in sc["rows"] if r[0] == "F" for q in range(r[2], r[3] + 1)}
+            holds.append([pi for pi, p in enumerate(pieces) if any((name, q) in seq for name, _, _, lo, hi in self.touched(p) for q in range(lo, hi + 1))])
+        found = []
+
+        def rec(si, used, cur):
+            if len(found) >= limit:
+                return
+            if si == len(scaffolds):
+                found.append(dict(cur))
+                return
+            for pi in holds[si]:
+                if pi not in used:
+                    used.add(pi)
+                    cur[si] = pi
+                    rec(si + 1, used, cur)
+                    used.discard(pi)
+                    del cur[si]
+
+        rec(0, set(), {})
+        return found
+
+    def length_when_ranked(self, piece):
+        """
+        length of the rows an overlap lookup of the piece returns (first to last overlapped contig, gaps between included)
+        after the large-overhang trim that is applied straight after the lookup: the quantity unlocs are ranked by
+        """
+        err = 1 + int(self.mp["bpt"] // 1)
+        rows = [(a, b) for a, b, *_ in self.rows_at[piece[0]] if max(a, piece[1]) <= min(b, piece[2])]
+        if not rows:
+            return 0
+        p1, p2 = piece[1], piece[2]
+        if not (len(rows) == 1 and p2 - p1 + 1 > err):
+            a, b = rows[0]
+            if p1 - a > err and max(0, min(p2, b) - max(p1, a) + 1) < err:
+                rows = rows[1:]
+            if rows:
+                a, b = rows[-1]
+                if b - p2 > err and max(0, min(p2, b) - max(p1, a) + 1) < err:
+                    rows = rows[:-1]
+        return rows[-1][1] - rows[0][0] + 1 if rows else 0
+
+    def awarded_away(self, piece):
+        """every contig the piece touches is touched only in part, and lies unbroken across the piece boundary in the output"""
+        tt = self.touched(piece)
+        if not tt:
+            return False
+        for name, cs, ce, lo, hi in tt:
+            sides = []
+            if lo > cs:
+                sides.append((lo - 1, lo))
+            if hi < ce:
+                sides.append((hi, hi + 1))
+            if not sides:
+                return False  # a contig lying wholly inside the piece cannot have been awarded to a neighbour
+            joined = False
+            for q1, q2 in sides:
+                l1 = self.idx.where.get((name, q1), [])
+                l2 = self.idx.where.get((name, q2), [])
+                if len(l1) == 1 and len(l2) == 1 and l1[0][0] == l2[0][0] and abs(l1[0][1] - l2[0][1]) == 1:
+                    joined = True
+            if not joined:
+                return False
+        return True
+
+    def hole_explained(self, key, base, lst):
+        k = self.scaffold_k(key, base)
+        if k is None:
+            return False
+        pieces = self.unloc_pieces(k)
+        nums = [n for n, _ in lst]
+        if not (len(pieces) > len(lst) and set(nums) <= set(range(1, len(pieces) + 1)) and len(set(nums)) == len(nums)):
+            return False
+        for m in self.matchings(pieces, [sc for _, sc in lst]):
+            orphans = [p for pi, p in enumerate(pieces) if pi not in m.values()]
+            if all(self.awarded_away(p) for p in orphans):
+                return True
+        return False
+
+    def rank_explained(self, key, base, lst):
+        k = self.scaffold_k(key, base)
+        if k is None:
+            return False
+        pieces = self.unloc_pieces(k)
+        everything = [p for psc in self.mp["scaffolds"] for p in psc]
+
+        def shares(p):
+            for name, cs, ce, _, _ in self.touched(p):
+                for q in everything:
+                    if q is not p and any(t[0] == name and t[1] == cs and t[2] == ce for t in self.touched(q)):
+                        return True
+            return False
+
+        if not any(shares(p) for p in pieces):
+            return False
+        ranked = [self.length_when_ranked(p) for p in pieces]
+        return any(non_increasing([ranked[m[si]] for si in range(len(lst))]) for m in self.matchings(pieces, [sc for _, sc in lst]))
+
+
 def naming_problems(case, run):
     out = run.out
     prefix = case["prefix"]
@@ -65,23 +238,11 @@ def naming_problems(case, run):
     def P(msg, cls=None):
         problems.append((msg, cls))
 
-    # triage label only: unloc scaffolds that come from Pretext scaffolds with an Unloc piece cut out of a larger input scaffold
     n_pieces_of = {}
     for psc in mp["scaffolds"]:
         for p in psc:
             n_pieces_of[p[0]] = n_pieces_of.get(p[0], 0) + 1
-    cut_unloc_bases = set()
-    any_cut_unloc = False
-    for psc in mp["scaffolds"]:
-        cut_here = any("Unloc" in p[4] and n_pieces_of[p[0]] > 1 for p in psc)
-        any_cut_unloc = any_cut_unloc or cut_here
-        if not cut_here:
-            continue
-        for p in psc:
-            t = anchor(in_toks[p[0]], p)
-            if t:
-                for si, _ in idx.where.get((t[0], t[1]), []):
-                    cut_unloc_bases.add((idx.scaffolds[si][0], idx.scaffolds[si][1]["name"].rsplit("_unloc_", 1)[0]))
+    lab = Labeller(case, out, idx, in_toks, prefix)
 
     # -- uniqueness and order, per assembly
     for key, asm in out.items():
@@ -104,11 +265,16 @@ def naming_problems(case, run):
             lst.sort(key=lambda x: x[0])
             nums = [n for n, _ in lst]
             if nums != list(range(1, len(nums) + 1)):
-                P(f"assembly {key!r}: unlocs of {base} are numbered {nums}, expected 1..{len(nums)}", "c10-unloc-number-hole")
+                # class c10-unloc-number-hole ONLY IF: the chromosome has more Unloc-tagged pieces than unloc scaffolds because a
+                # piece's overlap result was emptied (every contig it touched was awarded whole to a neighbouring piece) AND the
+                # numbers present are a subset of 1..(number of Unloc pieces).  Any other hole / out-of-range number: no class.
+                cls = "c10-unloc-number-hole" if lab.hole_explained(key, base, lst) else None
+                P(f"assembly {key!r}: unlocs of {base} are numbered {nums}, expected 1..{len(nums)}", cls)
             if not (non_increasing([pg.seq_len(sc["rows"]) for _, sc in lst]) or non_increasing([total_len(sc["rows"]) for _, sc in lst])):
-                # triage label only: unlocs are ranked when the Pretext scaffold has been looked up, before shared contigs
-                # are discarded or cut, so pieces cut out of a larger scaffold are ranked by a length they no longer have
-                cls = "c10-unloc-rank-precut-length" if (key, base) in cut_unloc_bases or (any_cut_unloc and not cut_unloc_bases) else None
+                # class c10-unloc-rank-precut-length ONLY IF: (a) an Unloc piece of this chromosome shares an input contig with
+                # another Pretext piece and (b) the order IS non-increasing when every unloc is measured by the whole input
+                # rows its piece overlapped when it was looked up (Labeller.length_when_ranked).  Otherwise: no class.
+                cls = "c10-unloc-rank-precut-length" if lab.rank_explained(key, base, lst) else None
                 P(f"assembly {key!r}: unlocs of {base} not in non-increasing length: {[(sc['name'], pg.seq_len(sc['rows'])) for _, sc in lst]}", cls)
         # autosome numbering: 1..n without holes (first haplotype / single haplotype), sizes non-increasing
         autos = {}
@@ -136,7 +302,7 @@ def naming_problems(case, run):
                 nums.append((int(m.group(1)), sc))
         nums.sort(key=lambda x: x[0])
         if [n for n, _ in nums] != list(range(1, len(nums) + 1)):
-            P(f"haplotigs are numbered {[n for n, _ in nums]}, expected H_1..H_{len(nums)}", "c10-haplotig-number-hole")
+            P(f"haplotigs are numbered {[n for n, _ in nums]}, expected H_1..H_{len(nums)}")
         if not (non_increasing([pg.seq_len(sc["rows"]) for _, sc in nums]) or non_increasing([total_len(sc["rows"]) for _, sc in nums])):
             P(f"haplotigs not in non-increasing length: {[(sc['name'], pg.seq_len(sc['rows']), total_len(sc['rows'])) for _, sc in nums]}")
 
@@ -213,9 +379,23 @@ def naming_problems(case, run):
         want = [(sc["name"], "no" if "_unloc_" in sc["name"] else "yes") for sc in asm["scaffolds"] if classify(sc["name"], prefix)[0] != "unplaced"]
         got = [(ln[0], ln[-1]) for ln in lines]
         if any(len(ln) != 3 for ln in lines) or got != want:
-            only_unloc_first = [w for w, g in zip(want, got) if w != g] and all(
-                w[0] == g[0] and w[0].endswith("_unloc_1") and not any(x[0] == w[0].rsplit("_unloc_", 1)[0] for x in want) for w, g in zip(want, got) if w != g
-            ) and len(want) == len(got)
+            # class c10-unloc-only-chromosome-csv ONLY IF: every line has 3 columns, the names are all right, and each wrong
+            # line is the FIRST line of a chromosome that has no chromosome scaffold, reads localised=yes instead of no, and the
+            # painted Pretext scaffold behind that chromosome consists solely of Unloc pieces (gap-only pieces, which overlap no
+            # contig, and Haplotig/Contaminant/FalseDuplicate pieces, which go elsewhere, not counted).  Anything else: no class.
+            diffs = [i for i, (w, g) in enumerate(zip(want, got)) if w != g]
+            only_unloc_first = (
+                all(len(ln) == 3 for ln in lines)
+                and len(want) == len(got)
+                and bool(diffs)
+                and all(
+                    want[i][0] == got[i][0]
+                    and (want[i][1], got[i][1]) == ("no", "yes")
+                    and not any(x[0].rsplit("_unloc_", 1)[0] == want[i][0].rsplit("_unloc_", 1)[0] for x in want[:i])
+                    and lab.unloc_only(key, want[i][0].rsplit("_unloc_", 1)[0])
+                    for i in diffs
+                )
+            )
             P(f"assembly {key!r}: chromosome list CSV has (name, localised) {got}, expected {want}", "c10-unloc-only-chromosome-csv" if only_unloc_first else None)
     return problems, n_judged
 
@@ -243,9 +423,13 @@ def check(case, col, side=None):
         return None
     problems, judged = naming_problems(case, run)
     if problems:
-        classes = sorted({c for _, c in problems if c})
+        # a failure carries class strings only if EVERY problem of the case is explained by a named class; a case with any
+        # unexplained problem is a plain failure (classes []), with the unexplained problems first in the message
+        all_classed = all(c for _, c in problems)
+        classes = sorted({c for _, c in problems}) if all_classed else []
+        problems = sorted(problems, key=lambda mc: mc[1] is not None)
         msg = "; ".join(m for m, _ in problems[:3])
-        if side is not None and classes and all(c for _, c in problems):
+        if side is not None and all_classed:
             side.setdefault(tuple(classes), []).append({"message": msg, "input": case, "classes": classes})
         else:
             col.fail(msg, case, classes)
